@@ -24,7 +24,7 @@ DEADLINE = 300
 
 def cases(tier, seed):
     rng = random.Random(f"C18/{seed}")
-    nu, ni, mmax, mdead = (500, 500, 20, 120) if tier == "quick" else (5000, 5000, 400, 300)
+    nu, ni, mmax, mdead = (2500, 2000, 20, 120) if tier == "quick" else (15000, 12000, 400, 300)
     cl = [("rand", 3), ("gadget", 4), ("dense-neg", 2), ("inputs", 1)]
     out = []
     for _ in range(nu):
